@@ -1,6 +1,7 @@
 package sim
 
 import (
+	"crypto/ed25519"
 	"crypto/rsa"
 	"errors"
 	"fmt"
@@ -362,6 +363,17 @@ func c20Sign(r *Run, t *tape.Tape, e c20Entry, n int, vec []int) {
 				r.Fired(c.kind)
 			} else {
 				fired[i] = c.kind + "(not-met)"
+				// ECDSA and RSASSA-PSS cannot sign without drawing from the
+				// entropy source they are given: if the call was made and the
+				// caller's reader was never asked for more than the single
+				// probe byte, the library signed with some other source and
+				// the injected failure could not be reported
+				_, isEd := c.key.Pub.(ed25519.PublicKey)
+				if made && !isEd && c.ent.n == 0 {
+					r.Check()
+					r.Fail("caller-entropy-source-bypassed/"+e.name, "signer %d (%s, key %s) was called and produced a signature, but the entropy source handed to %s was never read: its failure (%s) could not surface", i, c.kind, c.key.Name, e.name, c.kind)
+					return
+				}
 			}
 		case made:
 			r.Fired(c.kind)
